@@ -56,10 +56,16 @@ func checkC12(e *Env) {
 // only after exactly its declared number of bytes was copied (io.CopyN with
 // the error honoured), never a shorter prefix.
 func stringsAreExact(e *Env) {
+	const tN = "call:(*cbor.Decoder).decodeOfType(param:d,param:expected)#0"
 	dbt := e.fn("internal/cbor.(*Decoder).decodeBytesOfType")
 	bo := gate.Outcome{Kind: gate.ErrNil, Idx: 1}
 	e.requireGates("GATE", dbt, bo, noCfg,
 		gate.CallOK("B.head", "(*cbor.Decoder).decodeOfType", "param:d", "param:expected"),
-		gate.CallOK("B.copy", "io.CopyN", "{alloc:bytes.Buffer|local:*}", "param:d.r", "conv(call:(*cbor.Decoder).decodeOfType(param:d,param:expected)#0)"))
-	e.requireResult("RESULT", dbt, bo, 0, "call:(*bytes.Buffer).Bytes({alloc:bytes.Buffer|local:*})", "exactly the bytes copied")
+		// exactly n bytes: io.CopyN ok, io.ReadFull into make(n) ok, or a
+		// length-limited ReadFrom whose count equals n
+		either("B.copy", "exactly the declared number of bytes was read",
+			gate.CallOK("", "io.CopyN", "{alloc:bytes.Buffer|local:*}", "param:d.r", "conv("+tN+")"),
+			gate.CallOK("", "io.ReadFull", "param:d.r", "make([]byte,{"+tN+"|conv("+tN+")})"),
+			gate.Cmp("", "call:(*bytes.Buffer).ReadFrom({alloc:bytes.Buffer|local:*},call:io.LimitReader(param:d.r,conv("+tN+")))#0", token.EQL, "conv("+tN+")")))
+	e.requireResult("RESULT", dbt, bo, 0, "{call:(*bytes.Buffer).Bytes({alloc:bytes.Buffer|local:*})|make([]byte,{"+tN+"|conv("+tN+")})}", "exactly the bytes copied")
 }
